@@ -72,8 +72,8 @@ static long win_residue(char *desc, size_t dn, char *topfn, size_t tn)
 }
 
 /* ---------------------------------------------------------------- the object pool (what the harness owns) */
-enum { T_STR, T_USTR, T_MBUFF, T_PAIR, T_TOK, T_URL, T_REGEXP, T_LIST, T_VEC, T_MAP, T_ITER, T_RAW /* malloc'd array / C string */, T_PLIST /* list of pairs from get_pairs: only deleted */, T_NKINDS };
-static const char *TN[] = { "str", "ustr", "mbuff", "pair", "tok", "url", "regexp", "list", "vector", "map", "iterator", "raw", "pairlist" };
+enum { T_STR, T_USTR, T_MBUFF, T_PAIR, T_TOK, T_URL, T_REGEXP, T_LIST, T_VEC, T_MAP, T_ITER, T_RAW /* malloc'd array / C string */, T_PLIST /* list of pairs from get_pairs: only deleted */, T_STRV /* char ** from spiftool_split */, T_NKINDS };
+static const char *TN[] = { "str", "ustr", "mbuff", "pair", "tok", "url", "regexp", "list", "vector", "map", "iterator", "raw", "pairlist", "strv" };
 struct ent { void *p; int kind; int impl; void *subject; /* for iterators: the container they walk */ };
 #define POOLCAP 256
 static struct ent pool[POOLCAP];
@@ -95,7 +95,9 @@ static void destroy(int i)
     if (e.kind == T_LIST || e.kind == T_VEC || e.kind == T_MAP || e.kind == T_PLIST) drop_iterators_of(e.p);
     /* indices may have shifted */
     for (i = 0; i < npool; i++) if (pool[i].p == e.p && pool[i].kind == e.kind) break;
-    if (e.kind == T_RAW) free(e.p); else SPIF_OBJ_DEL((spif_obj_t) e.p);
+    if (e.kind == T_RAW) { void *q = e.p; FREE(q); }       /* the library's own release macro, as application code would use */
+    else if (e.kind == T_STRV) spiftool_free_array(e.p, 0);
+    else SPIF_OBJ_DEL((spif_obj_t) e.p);
     disown(i);
 }
 
@@ -116,7 +118,7 @@ static const char *IMPLN[] = { "array", "linked_list", "dlinked_list" };
 /* one program step */
 static void step(void)
 {
-    int op = (int) vh_below(40);
+    int op = (int) vh_below(43);
     int i, j;
     switch (op) {
     case 0: case 1: { const char *w = word(); vh_op("str_new_from_ptr(%s)", vh_qs(w)); own(spif_str_new_from_ptr((spif_charptr_t) w), T_STR, 0); vh_count("create", 1); break; }
@@ -220,6 +222,11 @@ static void step(void)
                  else { vh_op("map_dup(#%d)", i); own(SPIF_MAP_DUP(m), T_MAP, pool[i].impl); vh_count("copy", 1); } } break;
     case 36: if ((i = pick_kind(T_MAP)) >= 0) { int li = pick_kind(T_LIST); if (li >= 0 && pool[li].impl == 0) { vh_op("map_get_keys(#%d, into caller's list #%d)", i, li); SPIF_MAP_GET_KEYS((spif_map_t) pool[i].p, (spif_list_t) pool[li].p); vh_count("handed_out", 1); } } break;
 
+    /* ---- string tools that hand out arrays and C strings */
+    case 40: { const char *w = word(); vh_op("spiftool_split(NULL, %s)", vh_qs(w)); char *in = vh_heapstr(w); own(spiftool_split(NULL, (spif_charptr_t) in), T_STRV, 0); free(in); vh_count("handed_out", 1); vh_count("split_arrays", 1); break; }
+    case 41: if ((i = pick_kind(T_STRV)) >= 0) { vh_op("spiftool_join(\",\", #%d)", i); own(spiftool_join((spif_charptr_t) ",", (spif_charptr_t *) pool[i].p), T_RAW, 0); vh_count("handed_out", 1); } break;
+    case 42: if ((i = pick_kind(T_TOK)) >= 0) { spif_list_t tl = spif_tok_get_tokens(pool[i].p); if (tl && SPIF_LIST_COUNT(tl) > 0) { vh_op("tok(#%d) tokens to_array", i); own(SPIF_LIST_TO_ARRAY(tl), T_RAW, 0); vh_count("handed_out", 1); } } break;
+
     /* ---- emptying and early deletion */
     case 37: if ((i = pick_kind2(T_LIST, T_MAP)) >= 0 || (i = pick_kind(T_VEC)) >= 0) { vh_op("%s done(#%d) on a possibly non-empty container, then reuse", TN[pool[i].kind], i);
                  { void *subj = pool[i].p; drop_iterators_of(subj); for (j = 0; j < npool; j++) if (pool[j].p == subj) break; i = j; } SPIF_OBJ_DONE((spif_obj_t) pool[i].p);
@@ -231,6 +238,28 @@ static void step(void)
     }
 }
 
+#if defined(DEBUG) && DEBUG >= 5
+extern spifmem_memrec_t *spifmem_verif_malloc_rec(void);
+#define C06_TRACKING 1
+static void tracker_must_be_empty(void)
+{
+    spifmem_memrec_t *r = spifmem_verif_malloc_rec();
+    if (r->cnt != 0) {
+        char d[600]; size_t o = 0;
+        for (size_t i = 0; i < r->cnt && i < 4 && o < sizeof d - 120; i++)
+            o += (size_t) snprintf(d + o, sizeof d - o, "[%zu bytes from %s:%u]", r->ptrs[i].size, (char *) r->ptrs[i].file, (unsigned) r->ptrs[i].line);
+        const char *key = "tracker:table-not-empty";
+        size_t n = r->cnt;
+        r->cnt = 0;          /* keep later cases reproducible */
+        vh_fail(key, "memory tracking compiled in and active: after the program deleted everything it owned the tracker still lists %zu block(s): %s", n, d);
+    }
+    vh_count("tracker_empty_after_program", 1);
+}
+#else
+#define C06_TRACKING 0
+static void tracker_must_be_empty(void) { }
+#endif
+
 static void run_program(uint64_t rs, int steps)
 {
     vh_rng.s = rs;
@@ -238,6 +267,7 @@ static void run_program(uint64_t rs, int steps)
     for (int s = 0; s < steps; s++) step();
     vh_op("-- delete everything still owned (%d objects)", npool);
     while (npool > 0) destroy(npool - 1);
+    tracker_must_be_empty();
 }
 
 int main(int argc, char **argv)
@@ -245,6 +275,10 @@ int main(int argc, char **argv)
     vh_init(argc, argv, "C06");
     libast_set_program_name("c06"); libast_set_program_version("0");
     livetab = calloc(LIVECAP, sizeof *livetab);
+    if (C06_TRACKING) {
+        DEBUG_LEVEL = 5;                                  /* tracking active */
+        if (!vh_verbose) stderr = fopen("/dev/null", "w");   /* level-5 D_MEM chatter; sanitizer reports use fd 2 directly and are unaffected */
+    }
     if (!__sanitizer_install_malloc_and_free_hooks) { fprintf(stderr, "no ASan malloc hooks: conservation monitor unavailable\n"); return 3; }
     __sanitizer_install_malloc_and_free_hooks(mhook, fhook);
     /* warm up facilities that allocate lazily once per process */
@@ -270,7 +304,7 @@ int main(int argc, char **argv)
             vh_count("allocations_observed", win_allocs);
             vh_count("frees_observed", win_frees);
             vh_cov(vh_mix(rs, (uint64_t) steps));
-            if (res[1] != 0) {
+            if (res[1] != 0 && !C06_TRACKING) {     /* in the tracking build the tracker's own table is part of the heap: only the table-empty monitor applies */
                 /* third execution with allocation stacks, for the report and the key */
                 win_begin(1);
                 run_program(rs, steps);
